@@ -1,14 +1,15 @@
 ----------------------------- MODULE Trace_TTLMap -----------------------------
 (* Trace specification for the real TTL map (reached through verifhook).        *)
 EXTENDS TTLMap, TraceBase
-VARIABLES l, scn, cap, now, e, ref, bad, drift, nev
-vars == <<l, scn, cap, now, e, ref, bad, drift, nev>>
+VARIABLES l, scn, cap, now, e, ref, bad, drift, nev,
+          tied   \* an invisible eviction had several equally near candidates: the model can no longer know the map's content
+vars == <<l, scn, cap, now, e, ref, bad, drift, nev, tied>>
 Ev == Log[l]
 IsEvent(x) == l <= Len(Log) /\ Log[l].e = x /\ l' = l + 1
-Init == l = 1 /\ scn = "" /\ cap = 1 /\ now = 0 /\ e = <<>> /\ ref = <<>> /\ bad = <<>> /\ drift = <<>> /\ nev = 0
+Init == l = 1 /\ scn = "" /\ cap = 1 /\ now = 0 /\ e = <<>> /\ ref = <<>> /\ bad = <<>> /\ drift = <<>> /\ nev = 0 /\ tied = FALSE
 Reset == /\ IsEvent("Reset") /\ scn' = Ev.scn /\ cap' = Ev.cfg.cap /\ now' = 0 /\ e' = <<>> /\ ref' = <<>>
-         /\ UNCHANGED <<bad, drift>> /\ nev' = nev + 1
-Adv == /\ IsEvent("Adv") /\ now' = now + Ev.d /\ UNCHANGED <<scn, cap, e, ref, bad, drift>> /\ nev' = nev + 1
+         /\ tied' = FALSE /\ UNCHANGED <<bad, drift>> /\ nev' = nev + 1
+Adv == /\ IsEvent("Adv") /\ now' = now + Ev.d /\ UNCHANGED <<scn, cap, e, ref, bad, drift, tied>> /\ nev' = nev + 1
 
 (* missing = the keys that were live (unexpired) before the operation and that the map no longer finds afterwards; *)
 (* an expired entry cannot be probed without deleting it, so the eviction of an expired entry is invisible          *)
@@ -28,7 +29,8 @@ SetEv ==
           <<Ev.len <= (IF EffCap(cap) = 0 THEN 1 ELSE EffCap(cap)), "C14.TTL.LenWithinCapacity">> >>)
      /\ e' = r.e
      /\ ref' = IF r.err THEN ref ELSE Put(IF vic # "" /\ vic \in DOMAIN ref THEN Drop(ref, vic) ELSE ref, Ev.k, [val |-> Ev.v, exp |-> now + Ev.ttl])
-     /\ drift' = IF Ev.len = Cardinality(DOMAIN r.e) THEN drift ELSE Report(drift, scn, l, "ttlmap.set")
+     /\ tied' = (tied \/ (need /\ gone = {} /\ Cardinality(Nearest(e)) > 1))
+     /\ drift' = IF tied' \/ Ev.len = Cardinality(DOMAIN r.e) THEN drift ELSE Report(drift, scn, l, "ttlmap.set")
   /\ UNCHANGED <<scn, cap, now>> /\ nev' = nev + 1
 GetEv ==
   /\ IsEvent("Get")
@@ -38,8 +40,8 @@ GetEv ==
           <<Ev.found = want, IF want THEN "C14.TTL.LiveEntryFound" ELSE "C14.TTL.ExpiredOrForgottenEntryAbsent">>,
           <<(Ev.found /\ want) => Ev.val = ref[Ev.k].val, "C14.TTL.ValueIsLastSet">> >>)
      /\ e' = r.e
-     /\ drift' = IF r.found = Ev.found THEN drift ELSE Report(drift, scn, l, "ttlmap.get")
-  /\ UNCHANGED <<scn, cap, now, ref>> /\ nev' = nev + 1
+     /\ drift' = IF tied \/ r.found = Ev.found THEN drift ELSE Report(drift, scn, l, "ttlmap.get")
+  /\ UNCHANGED <<scn, cap, now, ref, tied>> /\ nev' = nev + 1
 End == /\ IsEvent("End")
        /\ JsonSerialize("result.json", [bad |-> bad, drift |-> drift, events |-> nev, lines |-> l])
        /\ UNCHANGED vars
